@@ -535,6 +535,8 @@ def mk_replace(base: Term, updates: Tuple[Tuple[str, Term], ...]) -> Term:
 
 
 def mk_call(f, args=(), kwargs=(), uid=None) -> Term:
+    if isinstance(f, tuple) and f[0] == "sym":
+        f = f[1]
     return ("call", f, tuple(args), tuple(sorted(kwargs)), uid)
 
 
@@ -655,6 +657,8 @@ def subst(t: Term, mapping: Dict[Term, Term], _memo=None) -> Term:
         r = mk_ite(S(t[1]), S(t[2]), S(t[3]))
     elif k == "call":
         f = S(t[1]) if isinstance(t[1], tuple) else t[1]
+        if isinstance(f, tuple) and f[0] == "sym":
+            f = f[1]
         r = ("call", f, tuple(S(x) for x in t[2]), tuple((kk, S(v)) for kk, v in t[3]), t[4])
     elif k == "attr":
         r = mk_attr(S(t[1]), t[2])
